@@ -15,6 +15,12 @@
  (D) de-runs      : real DE1/DE2 runs with a Recorder: every trial is explained as in (C) from the population the
                     strategy saw, and a member changes only if its trial had strictly lower energy (then member ==
                     trial, stored energy == trial energy).
+ (D') de-values   : the same runs and the same clauses as (D) on objectives with unusual but legal float values: NaN on
+                    part of the domain (x[0] < cut; with cut = -3 only trials that leave the start box hit it), +inf
+                    plateaus (x[-1] > wall), exactly tied values (quantised cost) and all three together, returned as
+                    float or numpy.float64, with or without a penalty, for both DE solvers and all ten strategies.  The
+                    oracle is the statement read with IEEE comparisons: a member (position or stored energy) may
+                    change only if `trial energy < old energy` is True, which it never is for a NaN or a tied trial.
 """
 import math
 import random
@@ -284,12 +290,50 @@ def gen_de_specs(seed, n):
                  f=rng.choice([0.5, 0.8, 1.1]), seed=rng.randrange(10 ** 6), nsteps=rng.choice([4, 8, 15])) for _ in range(n)]
 
 
-def check_de(spec, res):
+VALUE_MODES = ('nan', 'inf', 'ties', 'mixed')
+
+
+def unusual(base, mode, cut, wall, quantum, rtype):
+    """`base` with unusual but legal values: NaN where x[0] < cut ('nan'), +inf where x[-1] > wall ('inf'), the value
+    rounded down to a multiple of `quantum` = many exact ties ('ties'); 'mixed' = all three, in this order of precedence"""
+    def f(x):
+        v = float(base(x))
+        if mode in ('nan', 'mixed') and float(x[0]) < cut:
+            v = float('nan')
+        elif mode in ('inf', 'mixed') and float(x[-1]) > wall:
+            v = float('inf')
+        elif mode in ('ties', 'mixed'):
+            v = math.floor(v / quantum) * quantum
+        return np.float64(v) if rtype == 'np.float64' else v
+    return f
+
+
+def gen_de_value_specs(seed, n):
+    rng = random.Random(seed + 505)
+    modes, solvers, strategies = list(VALUE_MODES), ['DE1', 'DE2'], sorted(STRATS)
+    out = []
+    for k in range(n):      # solver x value mode x strategy are cycled, so each combination is met (80 of them)
+        out.append(dict(kind='de', solver=solvers[k % 2], values=modes[(k // 2) % 4], strategy=strategies[(k // 8) % 10],
+                        ndim=rng.choice([1, 2, 3, 4]), npop=rng.choice([6, 7, 10]),
+                        cost=rng.choice(['sphere', 'rosen', 'absum', 'plateau', 'tilted', 'maxabs', 'shifted']),
+                        cut=rng.choice([-3.0, -3.0, -1.0, 0.0, 1.5]), wall=rng.choice([0.5, 2.0, 3.0]),
+                        quantum=rng.choice([0.5, 2.0, 10.0]), rtype=rng.choice(['float', 'np.float64']),
+                        pen=rng.random() < 0.3, cr=rng.choice([0.0, 0.3, 0.9, 1.0]), f=rng.choice([0.5, 0.8, 1.1]),
+                        seed=rng.randrange(10 ** 6), nsteps=rng.choice([4, 8, 15])))
+    return out
+
+
+def check_de(spec, res, info=None):
     from mystic import strategy as S
     from mystic.termination import VTR
     seed_all(spec['seed'])
     n, name = spec['ndim'], spec['strategy']
-    rec = Recorder(FUNCS[spec['cost']])
+    mode = spec.get('values')
+    cost = FUNCS[spec['cost']]
+    if mode:
+        cost = unusual(cost, mode, spec['cut'], spec['wall'], spec['quantum'], spec['rtype'])
+    rec = Recorder(cost)
+    seen = {'nan': 0, 'inf': 0, 'tie': 0}      # trials (after generation 0) whose energy is NaN / +inf / equal to the member's
     s = make_solver(spec['solver'], n, spec['npop'])
     s.SetRandomInitialPoints([-3.0] * n, [3.0] * n)
     if spec['pen']:
@@ -315,7 +359,11 @@ def check_de(spec, res):
         e1 = [float(e) for e in s.popEnergy]
         shadow, sbest, sbe = [list(p) for p in pop0], list(best0), be0
         for j, (trial, val) in enumerate(calls):
-            et = energy(trial, val)
+            et = float(energy(trial, val))
+            if step > 0:
+                seen['nan'] += math.isnan(et)
+                seen['inf'] += et == float('inf')
+                seen['tie'] += et == e0[j]
             if step > 0:        # the first Step evaluates the initial population itself
                 ok, M, why = explain(name, shadow, sbest, j, spec['f'], trial)
                 if not ok:
@@ -335,6 +383,18 @@ def check_de(spec, res):
                 shadow[j] = list(trial)
                 if et < sbe:
                     sbe, sbest = et, list(trial)
+    if info is not None:
+        for k, v in seen.items():
+            info['de_trials_' + k] = info.get('de_trials_' + k, 0) + int(v)
+    if mode:    # non-trivial: some member changed AND the run really met the unusual comparison(s) of its mode
+        met = {'nan': seen['nan'], 'inf': seen['inf'], 'ties': seen['tie'], 'mixed': seen['nan'] or seen['inf'] or seen['tie']}[mode]
+        res.case('de-values:%s:%s:%s:%s:%s:pen=%s:%d' % (spec['solver'], name, mode, spec['cost'], spec['rtype'], spec['pen'], spec['seed']),
+                 nontrivial=changed > 0 and met > 0)
+        if info is not None and changed > 0 and met > 0:
+            k = 'de_values_nontrivial:%s:%s' % (spec['solver'], mode)
+            info[k] = info.get(k, 0) + 1
+            info['de_values_strategies'] = sorted(set(info.get('de_values_strategies', [])) | {name})
+        return changed
     res.case('de:%s:%s:%s:pen=%s:%d' % (spec['solver'], name, spec['cost'], spec['pen'], spec['seed']), nontrivial=changed > 0)
     return changed
 
@@ -353,7 +413,7 @@ def _work(chunk):
         elif spec['kind'] == 'strategy':
             info['empty_mutation'] += check_strategy(spec, res) == 0
         else:
-            check_de(spec, res)
+            check_de(spec, res, info)
     out = res.part()
     out['info'] = info
     return out
@@ -362,6 +422,7 @@ def _work(chunk):
 def run(tier='quick', seed=0):
     quick = tier == 'quick'
     n_ref, n_strat, n_de = (600, 600, 600) if quick else (4000, 8000, 8000)
+    n_dev = 800 if quick else 8000
     res = Result(
         rule='(A) fmin vs scipy.optimize.fmin (scipy %s) and (B) fmin_powell vs mystic/_scipy060optimize.fmin_powell '
              '(same brent line search; compared: xopt to 1e-9 x max(1,|x0|,|xopt|), fopt to 1e-9 rel. / 1e-12 abs., iterations, funcalls, warnflag, direc, x after '
@@ -371,11 +432,17 @@ def run(tier='quick', seed=0):
              'some tuple of distinct members != candidate through the strategy formula (exhaustive search) and form a '
              'binomial (Best1Bin) / cyclic-run (all others, DESIGN O1) pattern; distinct = distinct (strategy, D, NP, CR, '
              '|mutated|, seed), non-trivial = at least one mutated position. (D) real DE1/DE2 runs: trials explained as in '
-             '(C) (formula only: members of a real population share components, so the positions cannot be recovered), a member changes only for a strictly lower trial; non-trivial = some member changed.'
+             '(C) (formula only: members of a real population share components, so the positions cannot be recovered), a member changes only for a strictly lower trial; non-trivial = some member changed. '
+             "(D') the same on objectives with unusual legal values (NaN where x[0] < cut, +inf where x[-1] > wall, quantised = exactly "
+             'tied, all three; float / numpy.float64; with / without penalty), solver x value mode x strategy cycled; `strictly lower` is the '
+             'IEEE comparison trial < old (False for NaN and for ties); non-trivial = some member changed and a NaN / +inf / tied trial was met.'
              % __import__('scipy').__version__,
         bound='%d reference cases (half fmin, half fmin_powell), %d cases per strategy x 10 strategies (D 1-5, NP 6-9), '
-              '%d DE runs (<= 15 generations, dims 1-4, NP 6-10)' % (n_ref, n_strat, n_de))
-    specs = gen_ref_specs(seed, n_ref) + gen_strategy_specs(seed, n_strat) + gen_de_specs(seed, n_de)
+              '%d DE runs (<= 15 generations, dims 1-4, NP 6-10), %d DE runs on unusual-valued objectives (same bounds; 2 solvers x 4 '
+              'value modes x 10 strategies)' % (n_ref, n_strat, n_de, n_dev))
+    dev = gen_de_value_specs(seed, n_dev)
+    specs = gen_ref_specs(seed, n_ref) + gen_strategy_specs(seed, n_strat) + gen_de_specs(seed, n_de) + dev
+    res.samples.append(jsonable(dev[0]))
     for kind in ('nm', 'powell', 'strategy', 'de'):
         res.samples.append(jsonable([sp for sp in specs if sp['kind'] == kind][0]))
     random.Random(seed).shuffle(specs)
@@ -384,10 +451,13 @@ def run(tier='quick', seed=0):
     for part in pmap(_work, chunks):
         res.merge(part)
         for k, v in part['info'].items():
-            info[k] = info.get(k, 0) + v
+            info[k] = sorted(set(info.get(k, [])) | set(v)) if isinstance(v, list) else info.get(k, 0) + v
     res.extra['fmin_cases_not_stopped_by_evaluation_limit'] = info.get('unlimited_nm', 0)
     res.extra['fmin_cases_where_some_xopt_component_differs_by_more_than_1e-9_of_itself'] = info.get('nm_strict_mismatch', 0)
     res.extra['strategy_calls_with_no_mutated_position'] = info.get('empty_mutation', 0)
+    for k in sorted(info):
+        if k.startswith('de_'):
+            res.extra[k] = info[k]
     return res.out()
 
 
